@@ -583,6 +583,7 @@ var_opt_sketch<T, A> var_opt_sketch<T, A>::deserialize(std::istream& is, const S
   const auto n = read<uint64_t>(is);
   const auto h = read<uint32_t>(is);
   const auto r = read<uint32_t>(is);
+  if (!is.good()) throw std::runtime_error("error reading from std::istream");
 
   const uint32_t array_size = validate_and_get_target_size(preamble_longs, k, n, h, r, rf);
 
@@ -1369,7 +1370,7 @@ uint32_t var_opt_sketch<T, A>::validate_and_get_target_size(uint32_t preamble_lo
       throw std::invalid_argument("Possible corruption: deserializing with n > k but not in full mode. "
        "Found n = " + std::to_string(n) + ", k = " + std::to_string(k));
     }
-    if (h + r != k) {
+    if (static_cast<uint64_t>(h) + r != k) { // 64 bits: h + r must not wrap around
       throw std::invalid_argument("Possible corruption: deserializing in full mode but h + r != n. "
        "Found h = " + std::to_string(h) + ", r = " + std::to_string(r) + ", n = " + std::to_string(n));
     }
